@@ -9,8 +9,10 @@ import (
 	"fmt"
 	"os"
 	"path/filepath"
+	"regexp"
 	"runtime/debug"
 	"sort"
+	"strconv"
 	"strings"
 	"sync/atomic"
 	"time"
@@ -265,11 +267,60 @@ var (
 	execSeed  atomic.Uint64
 )
 
+// execRun / execTape: the run in progress, for the watchdog (a run that never ends never returns its result).
+var (
+	execRun  atomic.Pointer[Run]
+	execTape atomic.Pointer[Tape]
+)
+
+// spinningSite looks, in a dump of all goroutines, for a goroutine of the newest bubble that is RUNNING (runnable or
+// running: it is not waiting for anybody) inside the service's own code: a loop that does not end. Returns the
+// innermost frame of the service ("" if there is none: then somebody is blocked where the simulator cannot see it,
+// which is the harness's trouble, not a verdict).
+func spinningSite(dump string) string {
+	blocks := strings.Split(dump, "\n\n")
+	newest := -1
+	re := regexp.MustCompile(`synctest bubble (\d+)`)
+	for _, b := range blocks {
+		if m := re.FindStringSubmatch(b); m != nil {
+			if n, _ := strconv.Atoi(m[1]); n > newest {
+				newest = n
+			}
+		}
+	}
+	if newest < 0 {
+		return ""
+	}
+	tag := fmt.Sprintf("synctest bubble %d]", newest)
+	for _, b := range blocks {
+		lines := strings.Split(strings.TrimSpace(b), "\n")
+		if len(lines) < 2 || !strings.Contains(lines[0], tag) {
+			continue
+		}
+		if !strings.Contains(lines[0], "[runnable") && !strings.Contains(lines[0], "[running") {
+			continue
+		}
+		for _, l := range lines[1:] {
+			if strings.HasPrefix(l, "\t") || !strings.Contains(l, "block-headers-service/") || strings.Contains(l, "/verifsim") {
+				continue
+			}
+			fn := l[strings.LastIndex(l, "block-headers-service/")+len("block-headers-service/"):]
+			if k := strings.LastIndex(fn, "("); k > 0 {
+				fn = fn[:k]
+			}
+			return fn
+		}
+	}
+	return ""
+}
+
 func execute(e *Engine, prop, tier string, seed uint64, t *Tape, opt map[string]string) (res *Result) {
 	execSeed.Store(seed)
+	execTape.Store(t)
 	execStart.Store(time.Now().UnixNano())
 	defer execStart.Store(0)
 	r := &Run{Prop: prop, Tier: tier, Seed: seed, T: t, Stats: map[string]int{}, Cfg: map[string]any{}, Opt: opt}
+	execRun.Store(r)
 	res = &Result{Seed: seed}
 	finish := func() {
 		res.Tape = t.Out
